@@ -284,6 +284,58 @@ pub fn desc_strategy() -> impl Strategy<Value = StoreDesc> {
         })
 }
 
+pub fn big_desc_strategy() -> impl Strategy<Value = StoreDesc> {
+    (desc_strategy(), prop_oneof![Just(8193u32), Just(32768), Just(32769), Just(40000), Just(65537)], any::<u16>()).prop_map(|(mut d, n, pos)| {
+        let at = crate::model::sel(pos, d.ops.len() as u64 + 1) as usize;
+        d.ops.insert(at, ROp::BigAppend(n));
+        d
+    })
+}
+
+/// Direction 1 for histories with tens of thousands of blocks: dump at the end and after each reopen only.
+pub fn run_writer_history_big(ops: &[Op], local: &mut Local) -> Check {
+    let disk = Disk::new();
+    let mut sim = WSim::create(&disk, ObsPolicy::Scaled)?;
+    local.evals = local.evals.saturating_sub(1);
+    for (k, op) in ops.iter().enumerate() {
+        sim.apply(op)?;
+        if matches!(op, Op::Reopen) || k + 1 == ops.len() {
+            local.evals += 1;
+            check_layout_big(&disk.snapshot(), sim.core(), &format!("after op {k} {op:?}"), local)?;
+        }
+    }
+    Ok(())
+}
+
+/// check_layout with get() only on the sampled indices (has() on all).
+fn check_layout_big(files: &Files, core: &mut Hypercore, ctxt: &str, local: &mut Local) -> Check {
+    let rec = read_store(files).map_err(|e| Failure::new("layout-unreadable", format!("{ctxt}: a reader of the JavaScript layout cannot reconstruct the state: {e}")))?;
+    let info = core.info();
+    if rec.length != info.length || rec.byte_length != info.byte_length || rec.fork != info.fork || rec.writeable != info.writeable {
+        return Err(Failure::new(
+            "layout-mismatch:info",
+            format!("{ctxt}: files say (length {}, bytes {}, fork {}, writeable {}) but the API reports {:?}", rec.length, rec.byte_length, rec.fork, rec.writeable, info),
+        ));
+    }
+    for i in 0..info.length + 3 {
+        let has = core.has(i);
+        if has != rec.held.contains(&i) {
+            return Err(Failure::new("layout-mismatch:held", format!("{ctxt}: bitfield in the files says block {i} held: {} but has({i}) = {has}", rec.held.contains(&i))));
+        }
+        if has && (i % 257 == 0 || i + 40 > info.length || i < 40 || (i % 32768) < 3 || (i % 32768) > 32765) {
+            match block_on(core.get(i)) {
+                Ok(Some(v)) if Some(&v) == rec.blocks.get(&i) => {}
+                other => return Err(Failure::new("layout-mismatch:block_bytes", format!("{ctxt}: block {i}: files yield {:?} but get = {other:?}", rec.blocks.get(&i).map(|b| hc::brief_bytes(b))))),
+            }
+        }
+    }
+    local.class("big_boundaries_dumped");
+    if info.length > 32768 {
+        local.nontrivial(&(hash_of(&files[OPLOG]), info.length));
+    }
+    Ok(())
+}
+
 /// Reference writes, crate reads.
 pub fn run_desc(desc: &StoreDesc, local: &mut Local) -> Check {
     let synth = synthesize(desc, &TEST_SECRET_KEY_BYTES);
@@ -362,6 +414,9 @@ pub fn run(ctx: &Ctx) {
     random_stage(ctx, "dir1-writer", ctx.tier.pick(3_000, 60_000), || crate::props::c01::history_strategy(40), |ops: &Vec<Op>, local| run_writer_history(ops, local));
     random_stage(ctx, "dir1-sessions", ctx.tier.pick(2_000, 40_000), || session_strategy(30), |ops: &Vec<SOp>, local| run_session(ops, local));
     random_stage(ctx, "dir2-js-storage", ctx.tier.pick(4_000, 80_000), desc_strategy, |d: &StoreDesc, local| run_desc(d, local));
+    // multi-page bitfields and deep trees in both directions
+    random_stage(ctx, "dir1-big", ctx.tier.pick(24, 400), crate::props::c01::big_history_strategy, |ops: &Vec<Op>, local| run_writer_history_big(ops, local));
+    random_stage(ctx, "dir2-big", ctx.tier.pick(48, 800), big_desc_strategy, |d: &StoreDesc, local| run_desc(d, local));
     let _ = (TREE, DATA, BITFIELD);
 }
 
